@@ -95,7 +95,7 @@ fn spec_level(x: u32) -> u32 {
 #[kani::stub(std::hash::RandomState::new, fixed_random_state)]
 #[kani::stub(crate::group::secret_tree::TreeSecretsVec::set_node, model_set_node)]
 #[kani::stub(crate::group::secret_tree::TreeSecretsVec::take_node, model_take_node)]
-#[kani::unwind(18)]
+#[kani::unwind(82)]
 fn c13_tree_new_bounded_8() {
     let enc = any_exact::<NH>();
     let e: u32 = kani::any();
@@ -110,53 +110,66 @@ fn c13_tree_new_bounded_8() {
 }
 
 // ------------------------------------------------------------ consume_node
-// every parent node of a 8-leaf tree (indices 1, 3, 5, 7, 9, 11, 13), symbolic secret
-#[kani::proof]
-#[kani::stub(zeroize::optimization_barrier, noop_barrier)]
-#[kani::stub(std::hash::RandomState::new, fixed_random_state)]
-#[kani::stub(crate::group::secret_tree::TreeSecretsVec::set_node, model_set_node)]
-#[kani::stub(crate::group::secret_tree::TreeSecretsVec::take_node, model_take_node)]
-#[kani::stub(crate::tree_kem::math::verif_kani::spec_child_ok, no_oracle_3)]
-#[kani::stub(crate::tree_kem::math::verif_kani::spec_is_leaf, no_oracle_1)]
-#[kani::stub(crate::tree_kem::math::verif_kani::spec_parent_sibling_ok, no_oracle_ps)]
-#[kani::unwind(18)]
-fn c13_consume_node_bounded_8() {
+// every parent node of a 8-leaf tree (indices 1, 3, 5, 7, 9, 11, 13; one harness each),
+// symbolic secret
+fn consume_node_case(index: u32) {
     let secret = any_exact::<NH>();
-    for_each_below(7, |half| {
-        let p = GhostProvider::new();
-        let index = 2 * half + 1;
-        let mut t = SecretTree::<u32>::empty();
-        t.leaf_count = 8;
-        t.known_secrets
-            .set_node(index, SecretTreeNode::Secret(TreeSecret::from(secret.clone())));
+    let p = GhostProvider::new();
+    let mut t = SecretTree::<u32>::empty();
+    t.leaf_count = 8;
+    t.known_secrets
+        .set_node(index, SecretTreeNode::Secret(TreeSecret::from(secret.clone())));
 
-        let r = t.consume_node(&p, &index);
-        assert!(r.is_ok());
+    let r = t.consume_node(&p, &index);
+    assert!(r.is_ok());
 
-        let k = spec_level(index);
-        let left = index - (1u32 << (k - 1));
-        let right = index + (1u32 << (k - 1));
-        assert!(p.calls() == 2);
-        let l = p.find(Op::Expand, &secret, &rfc_kdf_label(NH as u16, b"tree", b"left"), NH);
-        let r = p.find(Op::Expand, &secret, &rfc_kdf_label(NH as u16, b"tree", b"right"), NH);
-        assert!(l.is_some() && r.is_some());
-        // the consumed node is gone, exactly the two children were added
-        assert!(model_len() == 2);
-        assert!(node_secret(index).is_none());
-        assert!(is_out(node_secret(left).unwrap(), l.unwrap(), NH));
-        assert!(is_out(node_secret(right).unwrap(), r.unwrap(), NH));
-        // leave the model empty for the next case
-        core::mem::forget(model_slot(&left).take());
-        core::mem::forget(model_slot(&right).take());
-        core::mem::forget(t);
-    });
+    let k = spec_level(index);
+    let left = index - (1u32 << (k - 1));
+    let right = index + (1u32 << (k - 1));
+    assert!(p.calls() == 2);
+    let l = p.find(Op::Expand, &secret, &rfc_kdf_label(NH as u16, b"tree", b"left"), NH);
+    let r = p.find(Op::Expand, &secret, &rfc_kdf_label(NH as u16, b"tree", b"right"), NH);
+    assert!(l.is_some() && r.is_some());
+    // the consumed node is gone, exactly the two children were added
+    assert!(model_len() == 2);
+    assert!(node_secret(index).is_none());
+    assert!(is_out(node_secret(left).unwrap(), l.unwrap(), NH));
+    assert!(is_out(node_secret(right).unwrap(), r.unwrap(), NH));
+    core::mem::forget(t);
 }
+
+macro_rules! consume_node_harness {
+    ($($name:ident: $idx:literal),* $(,)?) => { $(
+        #[kani::proof]
+        #[kani::stub(zeroize::optimization_barrier, noop_barrier)]
+        #[kani::stub(std::hash::RandomState::new, fixed_random_state)]
+        #[kani::stub(crate::group::secret_tree::TreeSecretsVec::set_node, model_set_node)]
+        #[kani::stub(crate::group::secret_tree::TreeSecretsVec::take_node, model_take_node)]
+        #[kani::stub(crate::tree_kem::math::verif_kani::spec_child_ok, no_oracle_3)]
+        #[kani::stub(crate::tree_kem::math::verif_kani::spec_is_leaf, no_oracle_1)]
+        #[kani::stub(crate::tree_kem::math::verif_kani::spec_parent_sibling_ok, no_oracle_ps)]
+        #[kani::unwind(82)]
+        fn $name() {
+            consume_node_case($idx);
+        }
+    )* };
+}
+
+consume_node_harness!(
+    c13_consume_node_n01_bounded_8: 1,
+    c13_consume_node_n03_bounded_8: 3,
+    c13_consume_node_n05_bounded_8: 5,
+    c13_consume_node_n07_bounded_8: 7,
+    c13_consume_node_n09_bounded_8: 9,
+    c13_consume_node_n11_bounded_8: 11,
+    c13_consume_node_n13_bounded_8: 13,
+);
 
 // ------------------------------------------------------------ SecretKeyRatchet::new
 #[kani::proof]
 #[kani::stub(zeroize::optimization_barrier, noop_barrier)]
 #[kani::stub(std::hash::RandomState::new, fixed_random_state)]
-#[kani::unwind(12)]
+#[kani::unwind(82)]
 fn c13_ratchet_new() {
     let p = GhostProvider::new();
     let secret = any_exact::<NH>();
@@ -176,7 +189,7 @@ fn c13_ratchet_new() {
 #[kani::proof]
 #[kani::stub(zeroize::optimization_barrier, noop_barrier)]
 #[kani::stub(std::hash::RandomState::new, fixed_random_state)]
-#[kani::unwind(12)]
+#[kani::unwind(82)]
 fn c13_ratchet_new_provider_error() {
     let p = GhostProvider::failing_at(0);
     let secret = any_exact::<NH>();
@@ -199,7 +212,7 @@ fn ratchet(secret: &[u8], generation: u32) -> SecretKeyRatchet {
 #[kani::proof]
 #[kani::stub(zeroize::optimization_barrier, noop_barrier)]
 #[kani::stub(std::hash::RandomState::new, fixed_random_state)]
-#[kani::unwind(12)]
+#[kani::unwind(82)]
 fn c13_ratchet_derive_secret_bounded_4() {
     let secret = any_exact::<NH>();
     let generation: u32 = kani::any();
@@ -225,7 +238,7 @@ fn c13_ratchet_derive_secret_bounded_4() {
 #[kani::proof]
 #[kani::stub(zeroize::optimization_barrier, noop_barrier)]
 #[kani::stub(std::hash::RandomState::new, fixed_random_state)]
-#[kani::unwind(12)]
+#[kani::unwind(82)]
 fn c13_ratchet_derive_secret_provider_error() {
     let p = GhostProvider::failing_at(0);
     let secret = any_exact::<NH>();
@@ -240,7 +253,7 @@ fn c13_ratchet_derive_secret_provider_error() {
 #[kani::proof]
 #[kani::stub(zeroize::optimization_barrier, noop_barrier)]
 #[kani::stub(std::hash::RandomState::new, fixed_random_state)]
-#[kani::unwind(12)]
+#[kani::unwind(82)]
 fn c13_ratchet_next_message_key() {
     let p = GhostProvider::new();
     let secret = any_exact::<NH>();
@@ -270,39 +283,51 @@ fn c13_ratchet_next_message_key() {
 #[kani::proof]
 #[kani::stub(zeroize::optimization_barrier, noop_barrier)]
 #[kani::stub(std::hash::RandomState::new, fixed_random_state)]
-#[kani::unwind(12)]
+#[kani::unwind(82)]
 fn c13_ratchet_next_message_key_provider_error() {
-    let at: usize = kani::any();
-    kani::assume(at < 3);
-    let p = GhostProvider::failing_at(at);
     let secret = any_exact::<NH>();
     let j: u32 = kani::any();
     kani::assume(j < u32::MAX);
-    let mut rt = ratchet(&secret, j);
-    let r = rt.next_message_key(&p);
-    assert!(is_provider_error(&r));
-    assert!(p.calls() == at + 1);
-    core::mem::forget(r);
+    for_each_below(3, |at| {
+        let p = GhostProvider::failing_at(at as usize);
+        let mut rt = ratchet(&secret, j);
+        let r = rt.next_message_key(&p);
+        assert!(is_provider_error(&r));
+        assert!(p.calls() == at as usize + 1);
+        core::mem::forget((r, rt));
+    });
 }
 
 // ------------------------------------------------------------ whole path: root -> leaf -> key
-// 4-leaf tree, every leaf (node index 0, 2, 4, 6), both key types: the first message key of
+// 4-leaf tree, every leaf (node index 0, 2, 4, 6; one harness each, two with the handshake
+// and two with the application ratchet): the first message key of
 // a fresh epoch is derived through the chain
 //   encryption_secret -> "tree"/left|right (twice) -> "handshake"|"application" -> nonce/key
 // and the sibling secrets on the way stay in the tree.
-#[kani::proof]
-#[kani::stub(zeroize::optimization_barrier, noop_barrier)]
-#[kani::stub(std::hash::RandomState::new, fixed_random_state)]
-#[kani::stub(crate::group::secret_tree::TreeSecretsVec::set_node, model_set_node)]
-#[kani::stub(crate::group::secret_tree::TreeSecretsVec::take_node, model_take_node)]
-#[kani::stub(crate::tree_kem::math::verif_kani::spec_child_ok, no_oracle_3)]
-#[kani::stub(crate::tree_kem::math::verif_kani::spec_is_leaf, no_oracle_1)]
-#[kani::stub(crate::tree_kem::math::verif_kani::spec_parent_sibling_ok, no_oracle_ps)]
-#[kani::unwind(18)]
-fn c13_tree_first_message_key_bounded_4() {
-    let enc = any_exact::<NH>();
-    for_each_bool(|handshake| for_each_below(4, |leaf| first_message_key_case(&enc, leaf, handshake)));
+macro_rules! first_message_key_harness {
+    ($($name:ident: ($leaf:literal, $hs:literal)),* $(,)?) => { $(
+        #[kani::proof]
+        #[kani::stub(zeroize::optimization_barrier, noop_barrier)]
+        #[kani::stub(std::hash::RandomState::new, fixed_random_state)]
+        #[kani::stub(crate::group::secret_tree::TreeSecretsVec::set_node, model_set_node)]
+        #[kani::stub(crate::group::secret_tree::TreeSecretsVec::take_node, model_take_node)]
+        #[kani::stub(crate::tree_kem::math::verif_kani::spec_child_ok, no_oracle_3)]
+        #[kani::stub(crate::tree_kem::math::verif_kani::spec_is_leaf, no_oracle_1)]
+        #[kani::stub(crate::tree_kem::math::verif_kani::spec_parent_sibling_ok, no_oracle_ps)]
+        #[kani::unwind(82)]
+        fn $name() {
+            let enc = any_exact::<NH>();
+            first_message_key_case(&enc, $leaf, $hs);
+        }
+    )* };
 }
+
+first_message_key_harness!(
+    c13_tree_first_message_key_leaf0_application_bounded_4: (0, false),
+    c13_tree_first_message_key_leaf1_handshake_bounded_4: (1, true),
+    c13_tree_first_message_key_leaf2_handshake_bounded_4: (2, true),
+    c13_tree_first_message_key_leaf3_application_bounded_4: (3, false),
+);
 
 fn first_message_key_case(enc: &[u8], leaf: u32, handshake: bool) {
     let p = GhostProvider::new();
